@@ -477,6 +477,15 @@ func c04Chain(r *core.Result, c core.Case, env *core.Env) {
 		if r.Verdict == core.Violated {
 			return
 		}
+		// every old member that took part has retired: the share it was constructed with is gone (also when that share
+		// came out of an earlier re-sharing, i.e. is an unreduced sum)
+		for k := 0; k < old.N(); k++ {
+			if old.Xi(k).Sign() != 0 {
+				r.Fail("chain:old-not-erased", "hop %d: old member %d still holds its share after the re-sharing completed (share of %d bits)", hop, k, old.Xi(k).BitLen())
+				return
+			}
+		}
+		r.Count("old_shares_erased_checked", int64(old.N()))
 		r.Count("resharings_completed", 1)
 		cur, curT = nk.Copy(), sh[1]
 	}
